@@ -4,6 +4,7 @@ pub mod exec;
 pub mod ifaces;
 pub mod lex;
 pub mod log;
+pub mod mainx;
 pub mod par;
 pub mod pv;
 pub mod runx;
